@@ -46,6 +46,10 @@ def derive(t):
                 idx.append(i)
             one = ['switch', items, ['seq', [['const', ['i', i]] for i in idx], 1, 0]] if n else \
                 ['len', ['const', ['i', 0]], 0]
+        elif rp[0] == 'pwrand':                    # n items, index drawn with the given weights
+            idx = [R.choices(range(size), rp[3])[0] for _ in range(n)]
+            one = ['switch', items, ['seq', [['const', ['i', i]] for i in idx], 1, 0]] if n else \
+                ['len', ['const', ['i', 0]], 0]
         elif rp[0] == 'pshuffle':                  # one shuffle per pass, then n times through
             perm = list(range(size))
             R.shuffle(perm)
@@ -329,7 +333,7 @@ class Gen:
             sd = lambda: r.choice([0, 0, 'f0.0', -1, -7, 2 ** 40 + 3, 'f2.5', 1, r.randint(2, 99), r.randint(2, 99)])
             seed = sd() if r.random() < 0.7 else ['S'] + [sd() for _ in range(r.randint(1, 3))]
             return ['pseed', seed,
-                    [r.choice(['prand', 'pxrand', 'pshuffle']), self.items('num', d, 1, 5), r.randint(0, 5)]]
+                    self.rand_pat(d)]
         if x < 0.3:
             return self.listpat('num', d)
         if x < 0.36:
@@ -417,6 +421,15 @@ class Gen:
         lo = r.randint(-3, 3); hi = lo + r.randint(0, 6)
         return ['narop', r.choice(['clip', 'wrap']), self.pat('int', d - 1), self.c(['i', lo]),
                 self.c(['i', hi]) if r.random() < 0.8 else self.pat('int', d - 1)]
+
+    def rand_pat(self, d):
+        r = self.r
+        kind = r.choice(['prand', 'pxrand', 'pshuffle', 'pwrand', 'pwrand'])
+        items = self.items('num', d, 1, 5)
+        rp = [kind, items, r.randint(0, 5)]
+        if kind == 'pwrand':
+            rp.append(None if r.random() < 0.2 else [r.choice([1, 1, 2, 3, 5, 0.5, 0.25]) for _ in items])
+        return rp
 
     def ops(self):
         r = self.r
